@@ -4,7 +4,12 @@ package main
 // Built by reading the code (access statistics were only used to find
 // candidates). One row per field, one reason per exemption.
 
-import "golang.org/x/tools/go/ssa"
+import (
+	"go/types"
+	"strings"
+
+	"golang.org/x/tools/go/ssa"
+)
 
 type lockRow struct {
 	Pkg, Type, Field string
@@ -12,15 +17,18 @@ type lockRow struct {
 	InnerType        string
 	Mutex            string
 	Reason           string
+	// TypeHint resolves the field when its tabled name is gone (a rename): the single field of the struct whose type
+	// string contains the hint; "flag" stands for a boolean / 32-bit integer / atomic.Bool|Int32|Uint32 field.
+	TypeHint string
 }
 
 var lockTable = []lockRow{
-	{Pkg: "dnsserver", Type: "FBDNSDB", Field: "dnsdb", Mutex: "reloadMu", Reason: "served generation: written by Reload, read by every query"},
+	{Pkg: "dnsserver", Type: "FBDNSDB", Field: "dnsdb", Mutex: "reloadMu", TypeHint: "/db.DB", Reason: "served generation: written by Reload, read by every query"},
 	{Pkg: "dnsserver", Type: "FBDNSDB", OuterField: "dbConfig", InnerType: "DBConfig", Field: "Path", Mutex: "reloadMu", Reason: "path partial reloads act on: written by a successful full reload"},
 	{Pkg: "db", Type: "DB", Field: "refCount", Mutex: "l", Reason: "live readers of one generation"},
 	{Pkg: "db", Type: "DB", Field: "destroyable", Mutex: "l", Reason: "pending-close flag of one generation"},
-	{Pkg: "dnsdata/rdb", Type: "IteratorPool", Field: "enabled", Mutex: "l", Reason: "toggled by reload (disable/enable) while queries call get"},
-	{Pkg: "metrics", Type: "slidingWindow", Field: "samples", Mutex: "mutex", Reason: "appended by queries, compacted by the cleaner goroutine, read by the exporter"},
+	{Pkg: "dnsdata/rdb", Type: "IteratorPool", Field: "enabled", Mutex: "l", TypeHint: "flag", Reason: "toggled by reload (disable/enable) while queries call get"},
+	{Pkg: "metrics", Type: "slidingWindow", Field: "samples", Mutex: "mutex", TypeHint: "[]", Reason: "appended by queries, compacted by the cleaner goroutine, read by the exporter"},
 	{Pkg: "metrics", Type: "Stats", Field: "values", Mutex: "vlock", Reason: "counter map shared by all query goroutines"},
 	{Pkg: "metrics", Type: "Stats", Field: "windows", Mutex: "wlock", Reason: "window map shared by all query goroutines"},
 	{Pkg: "dnsdata", Type: "Accum", Field: "prefixset", Mutex: "mux", Reason: "updated by parallel parser workers"},
@@ -28,7 +36,7 @@ var lockTable = []lockRow{
 	{Pkg: "dnsdata", Type: "Accum", Field: "v6prefixset", Mutex: "mux", Reason: "updated by parallel parser workers"},
 	{Pkg: "dnsdata", Type: "Accum", Field: "Ranger", Mutex: "mux", Reason: "subnet rearrangers updated by parallel parser workers"},
 	{Pkg: "dnsdata", Type: "SubnetRangerScanner", Field: "err", Mutex: "RWMutex", Reason: "set by the producer goroutine, read by the consumer"},
-	{Pkg: "db", Type: "lockedSource", Field: "src", Mutex: "lk", Reason: "PRNG state shared by all query goroutines"},
+	{Pkg: "db", Type: "lockedSource", Field: "src", Mutex: "lk", TypeHint: "math/rand.Source", Reason: "PRNG state shared by all query goroutines"},
 }
 
 // lockExempt: function → reason. Exemptions are per named symbol.
@@ -64,7 +72,48 @@ func (c *Ctx) guardSpec(r lockRow) *GuardSpec {
 	}
 	// make sure the mutex field exists
 	c.Field(r.Pkg, r.Type, r.Mutex)
-	return &GuardSpec{Name: r.Type + "." + r.Field, Field: c.Field(r.Pkg, r.Type, r.Field), Mutex: r.Mutex}
+	return &GuardSpec{Name: r.Type + "." + r.Field, Field: c.tabledField(r), Mutex: r.Mutex}
+}
+
+// tabledField resolves the guarded field of a row: by name, or — when the name is gone — by the row's type hint if
+// exactly one field of the struct matches it.
+func (c *Ctx) tabledField(r lockRow) *types.Var {
+	if f := c.FieldOpt(r.Pkg, r.Type, r.Field); f != nil {
+		return f
+	}
+	if r.TypeHint != "" {
+		st := structOf(c.Named(r.Pkg, r.Type))
+		var found []*types.Var
+		for i := 0; st != nil && i < st.NumFields(); i++ {
+			ts := st.Field(i).Type().String()
+			match := false
+			if r.TypeHint == "flag" {
+				switch ts {
+				case "bool", "int32", "uint32", "sync/atomic.Bool", "sync/atomic.Int32", "sync/atomic.Uint32":
+					match = true
+				}
+			} else {
+				match = strings.Contains(ts, r.TypeHint)
+			}
+			if match {
+				found = append(found, st.Field(i))
+			}
+		}
+		if len(found) == 1 {
+			return found[0]
+		}
+	}
+	return c.Field(r.Pkg, r.Type, r.Field) // fails with "unresolved anchor"
+}
+
+// tabledFieldByName looks the row up by its tabled names.
+func (c *Ctx) tabledFieldByName(pkg, typ, field string) *types.Var {
+	for _, r := range lockTable {
+		if r.Pkg == pkg && r.Type == typ && r.Field == field && r.OuterField == "" {
+			return c.tabledField(r)
+		}
+	}
+	return c.Field(pkg, typ, field)
 }
 
 // locksetRows runs the lockset rule for the selected rows; returns the number of obligations.
